@@ -108,7 +108,7 @@ def run(ctx):
                                         B.from_expr(f"axi_lite.{ch}.valid & axi_lite.{ch}.ready & ~(axi_lite.{ch}.resp == RESP_OKAY)"))
         ctx.ob("B3", ALW, "Wishbone2AXILite", f"{st}: non-OKAY {ch}.resp leads to ERROR", ok, "" if ok else f"{[(t.dst, t.gtext()) for t in tr]}")
         ack = [a for a in fx.find(domain="comb", target="wishbone.ack") if a.state == (info.id, st)]
-        ok = len(ack) == 1 and B.entails(ack[0].eff(), B.A(f"axi_lite.{ch}.resp == RESP_OKAY"))
+        ok = len(ack) == 1 and q.IMP(ack[0], B.A(f"axi_lite.{ch}.resp == RESP_OKAY"))
         ctx.ob("B3", ALW, "Wishbone2AXILite", f"{st}: plain ack only on OKAY", ok, "" if ok else f"{[a.gtext() for a in ack]}")
     err = [a for a in fx.find(domain="comb", target="wishbone.err")]
     ok = len(err) == 1 and err[0].state == (info.id, "ERROR") and err[0].v == "1" and \
@@ -281,7 +281,7 @@ def run(ctx):
                        "" if ok else f"IDLE->{t.dst} under {B.show(G)}: with both requests pending one direction can starve", t.line)
         for a in fx.find(domain="sync", target=flag):
             G = q.gformula(fx, a, inline=False)
-            dsts = [t.dst for t in fx.trans if t.src == "IDLE" and B.equivalent(t.eff(), a.eff())]
+            dsts = [t.dst for t in fx.trans if t.src == "IDLE" and q.EQ(t, a.eff())]
             ok = len(dsts) == 1 and ((a.v == "1") == (dsts[0] in rd_states))
             ctx.ob("B6", rel, name, f"{flag} <= {a.v} when a {'read' if a.v == '1' else 'write'} is taken", ok,
                    "" if ok else f"{flag} <= {a.v} with transition(s) {dsts}", a.line)
@@ -313,7 +313,7 @@ def run(ctx):
         ctx.ob("B8", rel, name, f"{reg} <- {src} only on {resp}", ok, "" if ok else f"{[(a.v, a.gtext()) for a in d]}")
     fx = fx_of(ctx, AL, "_AXILiteDownConverterRead")
     d = fx.find(domain="sync", target="r_data")
-    ok = len(d) == 1 and d[0].v == "master.r.data" and B.equivalent(d[0].eff(), B.A("slave.r.ready"))
+    ok = len(d) == 1 and d[0].v == "master.r.data" and q.EQ(d[0], B.A("slave.r.ready"))
     ctx.ob("B8", AL, "_AXILiteDownConverterRead", "read shift register steps when a slave beat is consumed", ok, "" if ok else f"{[(a.v, a.gtext()) for a in d]}")
     rr = [a for a in fx.find(domain="comb", target="slave.r.ready")]
     ok = bool(rr) and all(B.entails(q.gformula(fx, a, inline=False), B.Or(B.A("slave.r.valid"), B.A("master.r.ready"))) for a in rr)
